@@ -1,38 +1,128 @@
 /-
-  Lemmas for property C05: on the property's own domain (at most 5 actions per player) the
-  `next_k_array` walk visits every `k`-subset, each once (finite check in the kernel).
+  Lemmas for property C05: the `while supp[-1] < n: …; next_k_array(supp)` loops of
+  `_support_enumeration_gen` (model `walkK`, `kSubsets`, `supportPairs`) visit every
+  `k`-subset of `{0..n-1}`, each exactly once — for all `n`, `k`, from C16's theorems about
+  the `next_k_array` walk (`walk_enumerates`, `walk_range_spec`, `walk_range_injective`).
 -/
 import QEProofs.Lemmas.C05KSub
-import Mathlib.Data.List.Sublists
-import Mathlib.Data.List.Sort
+import QEProofs.Lemmas.C16KArray
+import Mathlib.Data.Finset.Card
+import Mathlib.Data.Finset.Range
 
 namespace QE.C05
-open QE
+open QE QE.C16
 
-/-- every `k`-sublist of `range n`, `1 ≤ k ≤ n ≤ 5`, is visited by the walk -/
-theorem kSubsets_complete_small :
-    ∀ n, n ≤ 5 → ∀ k, k ≤ n → 1 ≤ k → ∀ s, s ∈ (List.range n).sublistsLen k → s ∈ kSubsets n k := by
-  decide +kernel
+theorem getLastD_eq_getLast (a : List ℕ) (hne : a ≠ []) : a.getLastD 0 = a.getLast hne := by
+  rw [List.getLastD_eq_getLast?, List.getLast?_eq_some_getLast hne]; rfl
 
-/-- … and no subset is visited twice -/
-theorem kSubsets_nodup_small : ∀ n, n ≤ 5 → ∀ k, k ≤ n → (kSubsets n k).Nodup := by
-  decide +kernel
+/-- the loop condition `a[-1] < n` on the `j`-th array of the walk -/
+theorem walk_cond (k n : ℕ) (hk : 1 ≤ k) (j : ℕ) :
+    (walk (List.range k) j).getLastD 0 < n ↔ j < Nat.choose n k := by
+  rw [getLastD_eq_getLast _ (walk_range_ne_nil k hk j)]
+  exact walk_range_last_lt_iff k n hk j
 
-/-- no pair of supports is visited twice by the three nested loops (`m, n ≤ 5`) -/
-theorem supportPairs_nodup_small : ∀ m, m ≤ 5 → ∀ n, n ≤ 5 → (supportPairs m n).Nodup := by
-  decide +kernel
+/-- every array of the walk with index in `[j0, C(n,k))` is visited, given enough fuel -/
+theorem walkK_complete (k n : ℕ) (hk : 1 ≤ k) : ∀ (fuel j0 j : ℕ), j0 ≤ j → j < Nat.choose n k →
+    j - j0 < fuel → walk (List.range k) j ∈ walkK n fuel (walk (List.range k) j0)
+  | 0, _, _, _, _, h => by omega
+  | fuel + 1, j0, j, h0, hj, hf => by
+    unfold walkK
+    rw [if_pos ((walk_cond k n hk j0).mpr (by omega))]
+    by_cases he : j = j0
+    · subst he; exact List.mem_cons_self
+    · apply List.mem_cons_of_mem
+      exact walkK_complete k n hk fuel (j0 + 1) j (by omega) hj (by omega)
 
-theorem sorted_sublist_range (n : ℕ) (s : List ℕ) (hs : s.Pairwise (· < ·))
-    (hb : ∀ a, a ∈ s → a < n) : s.Sublist (List.range n) := by
-  apply List.sublist_of_subperm_of_pairwise (r := (· < ·)) _ hs List.pairwise_lt_range
-  apply List.subperm_of_subset (hs.imp (fun h => Nat.ne_of_lt h))
-  intro a ha
-  exact List.mem_range.mpr (hb a ha)
+/-- what is visited are arrays of the walk with index `≥ j0` -/
+theorem walkK_sub (k n : ℕ) : ∀ (fuel j0 : ℕ) (s : List ℕ),
+    s ∈ walkK n fuel (walk (List.range k) j0) → ∃ j, j0 ≤ j ∧ s = walk (List.range k) j
+  | 0, _, s, h => by simp [walkK] at h
+  | fuel + 1, j0, s, h => by
+    unfold walkK at h
+    split at h
+    · rcases List.mem_cons.mp h with rfl | h
+      · exact ⟨j0, le_refl _, rfl⟩
+      · obtain ⟨j, hj, he⟩ := walkK_sub k n fuel (j0 + 1) s h
+        exact ⟨j, by omega, he⟩
+    · simp at h
 
-theorem mem_kSubsets_small (n : ℕ) (hn : n ≤ 5) (s : List ℕ) (hs : s.Pairwise (· < ·))
-    (hb : ∀ a, a ∈ s → a < n) (hk : 1 ≤ s.length) : s ∈ kSubsets n s.length ∧ s.length ≤ n := by
-  have hsub := sorted_sublist_range n s hs hb
-  have hle : s.length ≤ n := by simpa using hsub.length_le
-  exact ⟨kSubsets_complete_small n hn s.length hle hk s (List.mem_sublistsLen.mpr ⟨hsub, rfl⟩), hle⟩
+theorem walkK_nodup (k n : ℕ) (hk : 1 ≤ k) : ∀ (fuel j0 : ℕ),
+    (walkK n fuel (walk (List.range k) j0)).Nodup
+  | 0, _ => by simp [walkK]
+  | fuel + 1, j0 => by
+    unfold walkK
+    split
+    · rw [List.nodup_cons]
+      refine ⟨?_, walkK_nodup k n hk fuel (j0 + 1)⟩
+      intro hmem
+      obtain ⟨j, hj, he⟩ := walkK_sub k n fuel (j0 + 1) _ hmem
+      have := walk_range_injective k hk j0 j he
+      omega
+    · exact List.nodup_nil
+
+/-- **every `k`-subset is visited** (all `n`, all `k ≥ 1`) -/
+theorem kSubsets_complete (n : ℕ) (s : List ℕ) (hs : s.Pairwise (· < ·))
+    (hb : ∀ a, a ∈ s → a < n) (hk : 1 ≤ s.length) : s ∈ kSubsets n s.length := by
+  obtain ⟨j, hj, he⟩ := (walk_enumerates s.length n hk s).mp ⟨rfl, hs, hb⟩
+  unfold kSubsets
+  rw [if_neg (by omega), chooseFast_eq_choose]
+  have := walkK_complete s.length n hk (Nat.choose n s.length + 1) 0 j (Nat.zero_le _) hj (by omega)
+  rw [he] at this
+  exact this
+
+/-- **no subset is visited twice** -/
+theorem kSubsets_nodup (n k : ℕ) : (kSubsets n k).Nodup := by
+  unfold kSubsets
+  by_cases hk : k = 0
+  · rw [if_pos hk]; exact List.nodup_nil
+  · rw [if_neg hk]
+    exact walkK_nodup k n (by omega) _ 0
+
+/-- **no pair of supports is visited twice** by the three nested loops (all `m`, `n`) -/
+theorem supportPairs_nodup (m n : ℕ) : (supportPairs m n).Nodup := by
+  unfold supportPairs
+  rw [List.nodup_flatMap]
+  constructor
+  · intro k _
+    rw [List.nodup_flatMap]
+    constructor
+    · intro s0 _
+      exact (kSubsets_nodup n k).map (fun a b h => by simpa using h)
+    · apply (kSubsets_nodup m k).pairwise_of_forall_ne
+      intro s0 _ s0' _ hne
+      simp only [Function.onFun, List.disjoint_left]
+      intro p hp hp'
+      rw [List.mem_map] at hp hp'
+      obtain ⟨_, _, rfl⟩ := hp
+      obtain ⟨_, _, h⟩ := hp'
+      exact hne (Prod.mk.inj h).1.symm
+  · apply (List.nodup_range' (step := 1)).pairwise_of_forall_ne
+    intro k _ k' _ hne
+    simp only [Function.onFun, List.disjoint_left]
+    intro p hp hp'
+    rw [List.mem_flatMap] at hp hp'
+    obtain ⟨s0, hs0, hp⟩ := hp
+    obtain ⟨s0', hs0', hp'⟩ := hp'
+    rw [List.mem_map] at hp hp'
+    obtain ⟨_, _, rfl⟩ := hp
+    obtain ⟨_, _, h⟩ := hp'
+    have h1 := (kSubsets_mem m k s0 hs0).1
+    have h2 := (kSubsets_mem m k' s0' hs0').1
+    have := (Prod.mk.inj h).1
+    rw [this] at h2
+    omega
+
+theorem sorted_length_le (n : ℕ) (s : List ℕ) (hs : s.Pairwise (· < ·))
+    (hb : ∀ a, a ∈ s → a < n) : s.length ≤ n := by
+  have hnd : s.Nodup := hs.imp (fun h => Nat.ne_of_lt h)
+  have hsub : s.toFinset ⊆ Finset.range n := by
+    intro a ha
+    exact Finset.mem_range.mpr (hb a (List.mem_toFinset.mp ha))
+  have := Finset.card_le_card hsub
+  rwa [List.toFinset_card_of_nodup hnd, Finset.card_range] at this
+
+theorem mem_kSubsets (n : ℕ) (s : List ℕ) (hs : s.Pairwise (· < ·))
+    (hb : ∀ a, a ∈ s → a < n) (hk : 1 ≤ s.length) : s ∈ kSubsets n s.length ∧ s.length ≤ n :=
+  ⟨kSubsets_complete n s hs hb hk, sorted_length_le n s hs hb⟩
 
 end QE.C05
